@@ -23,7 +23,10 @@
 (***************************************************************************)
 EXTENDS Packages, Json, IOUtils, TLC, SequencesExt
 
-Cases == ndJsonDeserialize(IOEnv.VERIF_TRACE)
+(* parsed once by the main thread and handed to the workers through a TLC  *)
+(* register (a plain definition is re-evaluated by every worker)           *)
+ASSUME TLCSet(1, ndJsonDeserialize(IOEnv.VERIF_TRACE))
+Cases == TLCGet(1)
 
 DevList == "," \o (IF "VERIF_DEVS" \in DOMAIN IOEnv THEN IOEnv.VERIF_DEVS ELSE "") \o ","
 Enabled(d) == ReplaceFirstSubSeq("", "," \o d \o ",", DevList) # DevList
@@ -48,31 +51,41 @@ TInit == /\ ci \in 1..Len(Cases) /\ pos = 0 /\ verdict = "run" /\ dev = "none"
 TLoad == /\ verdict = "run" /\ pos = 0
          /\ tree' = Cases[ci].tree /\ pos' = 1 /\ UNCHANGED <<ci, dev, verdict>>
 
+(* A write is followed by a read of the member from inside its package    *)
+(* (readback): of the trees that the specification and the deviations     *)
+(* predict after the write, the one that the readback confirms is taken.  *)
+Confirms(c, e, nxt) ==
+    \/ e.op # "out" \/ e.rt \notin WriteRoutes
+    \/ nxt.op # "in" \/ nxt.mode # "rd"
+    \/ ApplyIn(c, nxt).ok
+
 (* the deviations that explain event e in tree t: <<id, tree afterwards>>  *)
-Explained(t, e) ==
+Explained(t, e, nxt) ==
     IF e.op # "out" THEN <<"none", t>>
-    ELSE LET a == IF DevD1 THEN ImplOut(t, e, TRUE, FALSE) ELSE [ok |-> FALSE, c |-> t]
-             b == IF DevD2 THEN ImplOut(t, e, FALSE, TRUE) ELSE [ok |-> FALSE, c |-> t]
-             ab == IF DevD1 /\ DevD2 THEN ImplOut(t, e, TRUE, TRUE) ELSE [ok |-> FALSE, c |-> t]
-             ky == IF DevKeys /\ KeyRule = "no" THEN ImplOut(t, e, FALSE, FALSE) ELSE [ok |-> FALSE, c |-> t]
-         IN CASE a.ok -> <<IdD1, a.c>>
-              [] b.ok -> <<IdD2, b.c>>
-              [] ab.ok -> <<IdD1, ab.c>>
-              [] ky.ok -> <<IdKeys, ky.c>>
+    ELSE LET no == [ok |-> FALSE, c |-> t]
+             a == IF DevD1 THEN ImplOut(t, e, TRUE, FALSE) ELSE no
+             b == IF DevD2 THEN ImplOut(t, e, FALSE, TRUE) ELSE no
+             ab == IF DevD1 /\ DevD2 THEN ImplOut(t, e, TRUE, TRUE) ELSE no
+             ky == IF DevKeys /\ KeyRule = "no" THEN ImplOut(t, e, FALSE, FALSE) ELSE no
+         IN CASE a.ok /\ Confirms(a.c, e, nxt) -> <<IdD1, a.c>>
+              [] b.ok /\ Confirms(b.c, e, nxt) -> <<IdD2, b.c>>
+              [] ab.ok /\ Confirms(ab.c, e, nxt) -> <<IdD1, ab.c>>
+              [] ky.ok /\ Confirms(ky.c, e, nxt) -> <<IdKeys, ky.c>>
               [] OTHER -> <<"none", t>>
 
 TStep ==
     /\ verdict = "run" /\ pos >= 1 /\ pos <= Len(Evs)
     /\ LET e == Evs[pos]
+           nxt == IF pos < Len(Evs) THEN Evs[pos + 1] ELSE [op |-> "none"]
            a == Apply(tree, e)
-       IN IF a.ok
+           x == IF a.ok /\ Confirms(a.c, e, nxt) THEN <<"none", tree>> ELSE Explained(tree, e, nxt)
+       IN IF x[1] # "none"
+          THEN /\ tree' = x[2] /\ pos' = pos + 1 /\ dev' = (IF dev = "none" THEN x[1] ELSE dev)
+               /\ UNCHANGED <<ci, verdict>>
+          ELSE IF a.ok
           THEN /\ tree' = a.c /\ pos' = pos + 1 /\ UNCHANGED <<ci, verdict, dev>>
-          ELSE LET x == Explained(tree, e) IN
-               IF x[1] # "none"
-               THEN /\ tree' = x[2] /\ pos' = pos + 1 /\ dev' = (IF dev = "none" THEN x[1] ELSE dev)
-                    /\ UNCHANGED <<ci, verdict>>
-               ELSE /\ verdict' = "bad" /\ UNCHANGED <<ci, pos, tree, dev>>
-                    /\ PrintT(<<"VERDICT", Cases[ci].id, "bad", pos>>)
+          ELSE /\ verdict' = "bad" /\ UNCHANGED <<ci, pos, tree, dev>>
+               /\ PrintT(<<"VERDICT", Cases[ci].id, "bad", pos>>)
 
 TDone ==
     /\ verdict = "run" /\ pos > Len(Evs)
